@@ -261,7 +261,7 @@ def main():
         run(chk, 1200, 3)
     else:
         run(chk, 120, 2)
-        if chk.broken() and not chk.spec_failures:
+        if (chk.broken() or chk.anchor_changed) and not chk.spec_failures:
             run(chk, 600, 3)
     chk.finish()
 
